@@ -175,7 +175,19 @@ def _allow(caller: FuncInfo, callee: FuncInfo) -> bool:
         return False
     if callee.module.name == SEARCHES and not callee.name.startswith("_"):
         return False
+    if _self_recursive(callee):
+        return False  # one unrolled level says nothing; _recursion_to_worklists rewrites the walk as a whole
     return True
+
+
+def _self_calls(f: FuncInfo) -> list[ast.Call]:
+    if isinstance(f.node, ast.Lambda):
+        return []
+    return [c for c in own_nodes(f.node) if isinstance(c, ast.Call) and isinstance(c.func, ast.Name) and c.func.id == f.name and f.cls is None]
+
+
+def _self_recursive(f: FuncInfo) -> bool:
+    return bool(_self_calls(f))
 
 
 def _ordered_names(fn: ast.AST) -> list[ast.Name]:
@@ -243,6 +255,90 @@ def _eliminate_aliases(fn: ast.AST, params: set[str]) -> None:
                 break
         if not done:
             return
+
+
+def _bool_const(e: ast.AST) -> bool | None:
+    return e.value if isinstance(e, ast.Constant) and isinstance(e.value, bool) else None
+
+
+class _FoldBools(ast.NodeTransformer):
+    """Boolean constants the substitution of a helper called with a literal flag leaves behind (`_search(.., forward=True)`):
+    `X if True else Y`, `True and c`, `not False`, `if False: A else: B`, `elif False:` are reduced to what is evaluated."""
+
+    def visit_Lambda(self, n):  # noqa: N802
+        return n
+
+    def visit_UnaryOp(self, n):  # noqa: N802
+        self.generic_visit(n)
+        v = _bool_const(n.operand)
+        if isinstance(n.op, ast.Not) and v is not None:
+            return ast.copy_location(ast.Constant(value=not v), n)
+        return n
+
+    def visit_BoolOp(self, n):  # noqa: N802
+        self.generic_visit(n)
+        is_and = isinstance(n.op, ast.And)
+        vals = []
+        for x in n.values:
+            v = _bool_const(x)
+            if v is None:
+                vals.append(x)
+            elif v != is_and:  # False in an `and`, True in an `or`: decides; what follows is not evaluated
+                if not vals:
+                    return ast.copy_location(ast.Constant(value=v), n)
+                vals.append(x)
+                break
+            # True in an `and` / False in an `or`: neutral (unless it is the last operand and thereby the value)
+        if not vals:
+            return ast.copy_location(ast.Constant(value=is_and), n)
+        if len(vals) == 1:
+            return vals[0]
+        n.values = vals
+        return n
+
+    def visit_IfExp(self, n):  # noqa: N802
+        self.generic_visit(n)
+        v = _bool_const(n.test)
+        if v is None:
+            return n
+        return n.body if v else n.orelse
+
+    def visit_If(self, n):  # noqa: N802
+        self.generic_visit(n)
+        v = _bool_const(n.test)
+        if v is None:
+            return n
+        keep = n.body if v else n.orelse
+        return keep or None
+
+    def visit_While(self, n):  # noqa: N802
+        self.generic_visit(n)
+        if _bool_const(n.test) is False:
+            return n.orelse or None
+        return n
+
+
+def _fold_constants(fn: ast.AST) -> None:
+    # only when a literal flag is in play: `while True:` worklists and the like stay as written
+    if not any(isinstance(x, (ast.If, ast.IfExp)) and _bool_const(x.test) is not None or (isinstance(x, ast.BoolOp) and any(_bool_const(v_) is not None for v_ in x.values)) for x in ast.walk(fn)):
+        return
+    folder = _FoldBools()
+
+    def block(stmts: list[ast.stmt]) -> list[ast.stmt]:
+        out: list[ast.stmt] = []
+        for st in stmts:
+            got = folder.visit(st)
+            if got is None:
+                continue
+            out += got if isinstance(got, list) else [got]
+        return out
+
+    fn.body = block(fn.body) or [ast.Pass()]
+    for n in ast.walk(fn):
+        for fld in ("body", "orelse", "finalbody"):
+            blk = getattr(n, fld, None)
+            if isinstance(blk, list) and not blk and fld == "body" and isinstance(n, (ast.For, ast.While, ast.If, ast.With, ast.Try, ast.ExceptHandler)):
+                n.body = [ast.Pass()]
 
 
 def _propagate_copies(fn: ast.AST, params: set[str]) -> None:
@@ -750,6 +846,182 @@ def _inline_generator_loops(repo: Repo, view: FuncInfo) -> bool:
     return changed
 
 
+def _recursion_to_worklists(repo: Repo, view: FuncInfo) -> bool:
+    """`walk(g, start, acc)` as a statement, where `walk` is a module-level helper that calls itself only as a statement, hands every
+    parameter but one (the node) on unchanged and returns nothing:
+
+        def walk(g, node, acc):              pending = [start]
+            if node in acc: return           while pending:
+            acc.add(node)             ->         node = pending.pop()
+            for c in g.succ(node):               if node in acc: continue
+                if ..: walk(g, c, acc)           acc.add(node)
+                                                 for c in g.succ(node):
+                                                     if ..: pending.append(c)
+
+    The nodes are then examined in another order (a stack instead of the call stack), but the same nodes are examined, each
+    with the same tests on its neighbours - which is all the model of a search talks about."""
+    changed = False
+    taken = {n.id for n in ast.walk(view.node) if isinstance(n, ast.Name)}
+
+    def shape(f: FuncInfo) -> int | None:
+        """index of the one parameter that varies in the self-calls, if the helper has the accumulator-passing form"""
+        if isinstance(f.node, ast.Lambda) or _is_generator(f) or f.node.args.vararg or f.node.args.kwarg or f.node.args.kwonlyargs:
+            return None
+        params = f.param_names
+        calls = _self_calls(f)
+        if not calls:
+            return None
+        varying: set[int] = set()
+        for c in calls:
+            if not isinstance(parent(c), ast.Expr) or any(isinstance(a, ast.Starred) for a in c.args) or any(k.arg is None for k in c.keywords):
+                return None
+            bound: dict[str, ast.expr] = dict(zip(params, c.args))
+            for k in c.keywords:
+                bound[k.arg] = k.value
+            if set(bound) != set(params):
+                return None
+            for i, p_ in enumerate(params):
+                if not (isinstance(bound[p_], ast.Name) and bound[p_].id == p_):
+                    varying.add(i)
+        if len(varying) != 1:
+            return None
+        k = next(iter(varying))
+        # the unchanged parameters are never rebound, the node parameter is not rebound either
+        for n in own_nodes(f.node):
+            if isinstance(n, ast.Name) and isinstance(n.ctx, (ast.Store, ast.Del)) and n.id in params:
+                return None
+            if isinstance(n, ast.Return) and n.value is not None and not (isinstance(n.value, ast.Constant) and n.value.value is None):
+                return None
+            if isinstance(n, (ast.FunctionDef, ast.AsyncFunctionDef, ast.ClassDef, ast.Global, ast.Nonlocal, ast.Try, ast.With)):
+                return None
+
+        # `return` only where `continue` of the new loop means the same: not inside a loop of the helper
+        def returns_in_loops(stmts: list[ast.stmt], in_loop: bool) -> bool:
+            for st in stmts:
+                if isinstance(st, ast.Return) and in_loop:
+                    return True
+                for fld in ("body", "orelse"):
+                    blk = getattr(st, fld, None)
+                    if isinstance(blk, list) and blk and isinstance(blk[0], ast.stmt) and returns_in_loops(blk, in_loop or isinstance(st, (ast.For, ast.While))):
+                        return True
+            return False
+
+        if returns_in_loops(f.node.body, False):
+            return None
+        return k
+
+    def expand(st: ast.Expr, f: FuncInfo, k: int) -> list[ast.stmt] | None:
+        call = st.value
+        if any(isinstance(a, ast.Starred) for a in call.args) or any(kw.arg is None for kw in call.keywords):
+            return None
+        params = f.param_names
+        bind: dict[str, ast.expr] = dict(zip(params, call.args))
+        for kw in call.keywords:
+            bind[kw.arg] = kw.value
+        a = f.node.args
+        pos = [p_.arg for p_ in [*a.posonlyargs, *a.args]]
+        for p_, d in zip(pos[len(pos) - len(a.defaults):], a.defaults):
+            bind.setdefault(p_, d)
+        if any(p_ not in bind for p_ in params):
+            return None
+        body = [_clone_src(s_, f) for s_ in f.node.body if not (isinstance(s_, ast.Expr) and isinstance(s_.value, ast.Constant))]
+        stored = {n.id for s_ in body for n in ast.walk(s_) if isinstance(n, ast.Name) and isinstance(n.ctx, ast.Store)}
+        prefix: list[ast.stmt] = []
+        ren: dict[str, str] = {}
+        for i, p_ in enumerate(params):
+            if i == k:
+                new = p_ if p_ not in taken else f"{p_}__{f.name.strip('_')}"
+                taken.add(new)
+                ren[p_] = new
+                continue
+            val = bind[p_]
+            if isinstance(val, ast.Name):
+                ren[p_] = val.id
+            else:
+                new = p_ if p_ not in taken else f"{p_}__{f.name.strip('_')}"
+                taken.add(new)
+                ren[p_] = new
+                prefix.append(ast.copy_location(ast.Assign(targets=[ast.Name(id=new, ctx=ast.Store())], value=val), st))
+        for l_ in sorted(stored - set(params)):
+            if l_ in taken:
+                new = f"{l_}__{f.name.strip('_')}"
+                taken.add(new)
+                ren[l_] = new
+            else:
+                taken.add(l_)
+        wl = f"pending_calls_of_{f.name.strip('_')}"  # reports then read `pending_calls_of_walk.append(child)` for the recursive call
+        while wl in taken:
+            wl += "_"
+        taken.add(wl)
+
+        def subst(stmts: list[ast.stmt]) -> list[ast.stmt]:
+            out: list[ast.stmt] = []
+            for x in stmts:
+                if isinstance(x, ast.Return):
+                    out.append(ast.copy_location(ast.Continue(), x))
+                    continue
+                if isinstance(x, ast.Expr) and isinstance(x.value, ast.Call) and isinstance(x.value.func, ast.Name) and x.value.func.id == f.name:
+                    c = x.value
+                    b2: dict[str, ast.expr] = dict(zip(params, c.args))
+                    for kw in c.keywords:
+                        b2[kw.arg] = kw.value
+                    push = ast.Expr(value=ast.Call(func=ast.Attribute(value=ast.Name(id=wl, ctx=ast.Load()), attr="append", ctx=ast.Load()), args=[b2[params[k]]], keywords=[]))
+                    out.append(ast.copy_location(push, x))
+                    if hasattr(x, "_src"):
+                        push._src = x._src  # type: ignore[attr-defined]
+                    continue
+                for fld in ("body", "orelse"):
+                    blk = getattr(x, fld, None)
+                    if isinstance(blk, list) and blk and isinstance(blk[0], ast.stmt):
+                        setattr(x, fld, subst(blk) or [ast.copy_location(ast.Pass(), x)])
+                out.append(x)
+            return out
+
+        body = subst(body)
+        for s_ in body:
+            for n in ast.walk(s_):
+                if isinstance(n, ast.Name) and n.id in ren:
+                    n.id = ren[n.id]
+        init = ast.copy_location(ast.Assign(targets=[ast.Name(id=wl, ctx=ast.Store())], value=ast.List(elts=[bind[params[k]]], ctx=ast.Load())), st)
+        pop = ast.copy_location(ast.Assign(targets=[ast.Name(id=ren[params[k]], ctx=ast.Store())], value=ast.Call(func=ast.Attribute(value=ast.Name(id=wl, ctx=ast.Load()), attr="pop", ctx=ast.Load()), args=[], keywords=[])), st)
+        loop = ast.copy_location(ast.While(test=ast.Name(id=wl, ctx=ast.Load()), body=[pop, *body], orelse=[]), st)
+        return prefix + [init, loop]
+
+    def block(stmts: list[ast.stmt]) -> list[ast.stmt]:
+        nonlocal changed
+        out: list[ast.stmt] = []
+        for st in stmts:
+            for fld in ("body", "orelse", "finalbody"):
+                blk = getattr(st, fld, None)
+                if isinstance(blk, list) and blk and isinstance(blk[0], ast.stmt):
+                    setattr(st, fld, block(blk))
+            if isinstance(st, ast.Try):
+                for h in st.handlers:
+                    h.body = block(h.body)
+            if isinstance(st, ast.Expr) and isinstance(st.value, ast.Call) and isinstance(st.value.func, ast.Name):
+                f = None
+                try:
+                    cs, how = types_of(repo).callees(view, st.value, byname_fallback=False)
+                    cs = [c for c in cs if not c.is_abstract]
+                    if len(cs) == 1 and how == "repo" and cs[0].cls is None and cs[0].outer is None and not isinstance(cs[0].node, ast.Lambda):
+                        f = cs[0]
+                except Exception:  # noqa: BLE001
+                    f = None
+                k = shape(f) if f is not None and _self_recursive(f) else None
+                if k is not None:
+                    got = expand(st, f, k)
+                    if got is not None:
+                        out += got
+                        changed = True
+                        view.__dict__.setdefault("gen_inlined", []).append(f.fq)
+                        continue
+            out.append(st)
+        return out
+
+    view.node.body = block(view.node.body)
+    return changed
+
+
 def _generator_comprehensions_to_loops(repo: Repo, view: FuncInfo) -> bool:
     """`return {e for x in gen(..) if c}` / `v = [e for x in gen(..)]` over a repo generator helper -> `acc = set()`,
     `for x in gen(..): if c: acc.add(e)`, `return acc`: the statement loop can then take the helper's body."""
@@ -990,6 +1262,7 @@ def search_view(repo: Repo, fi: FuncInfo) -> FuncInfo:
         # helper calls the inliner could not reach (nested in an expression, generator helpers in a for header): make them
         # reachable and substitute once more
         changed = _hoist_helper_calls(repo, v0)
+        changed = _recursion_to_worklists(repo, v0) or changed
         changed = _generator_comprehensions_to_loops(repo, v0) or changed
         changed = _inline_generator_loops(repo, v0) or changed
         inlined += v0.__dict__.get("gen_inlined", [])
@@ -1001,6 +1274,7 @@ def search_view(repo: Repo, fi: FuncInfo) -> FuncInfo:
         inlined += list(getattr(v1, "inlined", []))
         v0 = v1
     node = v0.node
+    _fold_constants(node)
     _positionalise(node, repo)
     node.body = _split_tuple_assigns(node.body)
     _project_tuples(node)
@@ -1563,6 +1837,19 @@ def _receiving_var(call: ast.AST) -> tuple[str | None, bool]:
     return None, False
 
 
+def _accumulating_loop(loop: ast.AST) -> ast.AST | None:
+    """The `X.update(t)` / `X |= t` statement of a loop `for t in <sets>: X |= t` whose body does nothing else."""
+    if not (isinstance(loop, ast.For) and isinstance(loop.target, ast.Name) and len(loop.body) == 1 and not loop.orelse):
+        return None
+    st = loop.body[0]
+    t = loop.target.id
+    if isinstance(st, ast.AugAssign) and isinstance(st.op, ast.BitOr) and isinstance(st.target, ast.Name) and isinstance(st.value, ast.Name) and st.value.id == t:
+        return st
+    if isinstance(st, ast.Expr) and isinstance(st.value, ast.Call) and isinstance(st.value.func, ast.Attribute) and st.value.func.attr == "update" and isinstance(st.value.func.value, ast.Name) and len(st.value.args) == 1 and isinstance(st.value.args[0], ast.Name) and st.value.args[0].id == t:
+        return st
+    return None
+
+
 def _flattened_into(fn: ast.AST, name: str) -> tuple[str | None, list[ast.stmt]]:
     """The node set a collection of node sets `name` is united into: `X = set().union(*name)`, `X.update(*name)`, `X |= set().union(*name)`,
     `X = set(chain.from_iterable(name))`, `X = {n for t in name for n in t}`, `X = reduce(<union>, name, set())`. None unless every use
@@ -1584,6 +1871,11 @@ def _flattened_into(fn: ast.AST, name: str) -> tuple[str | None, list[ast.stmt]]
             fname = dotted(par.func).split(".")[-1]
             if fname == "from_iterable" or (fname == "reduce" and len(par.args) >= 2 and par.args[1] is n):
                 flat = par
+        elif isinstance(par, ast.Attribute) and par.attr == "values" and isinstance(parent(par), ast.Call) and not parent(par).args and isinstance(parent(parent(par)), (ast.For, ast.comprehension)) and parent(parent(par)).iter is parent(par):
+            # `for t in trees.values(): X |= t`
+            flat = _accumulating_loop(parent(parent(par)))
+        elif isinstance(par, ast.For) and par.iter is n:
+            flat = _accumulating_loop(par)
         elif isinstance(par, ast.comprehension) and par.iter is n and isinstance(par.target, ast.Name):
             comp = parent(par)
             if isinstance(comp, _COMPS) and len(comp.generators) == 2 and comp.generators[0] is par:
@@ -1617,7 +1909,7 @@ def _subtree_sites(m: SearchModel, single: dict[str, ast.expr]) -> list[SubtreeS
         arg_e = c.args[1] if len(c.args) == 2 else next((k.value for k in c.keywords if k.arg not in (None, "graph")), None)
         arg = dotted(arg_e) if arg_e is not None else ""
         target, assigned = _receiving_var(c)
-        if target is not None and not assigned and target in single and isinstance(strip(single[target]), _COMPS) and strip(single[target]).elt is c:
+        if target is not None and not assigned and target in single and ((isinstance(strip(single[target]), _COMPS) and strip(single[target]).elt is c) or (isinstance(single[target], ast.DictComp) and single[target].value is c)):
             # `trees = (get_all_submodules_of(graph, m) for m in P)`: a collection of sub-trees, not a node set; the node set is
             # what the collection is flattened into (`X = set().union(*trees)`, `X.update(*trees)`, `{n for t in trees for n in t}`)
             target, fills = _flattened_into(fn, target)
